@@ -158,7 +158,10 @@ func mkWorld(in input) *hworld {
 	r0nokey := &onet.Roster{ID: r0.ID, List: []*network.ServerIdentity{r0.List[0], r0.List[1], r0.List[2], &keyless}, Aggregate: r0.Aggregate}
 	// 0 R0, 1 R1, 2 R0 reversed (same id), 3 R0 cut to two members (same id), 4 empty Roster{}, 5 R1's members under R0's id,
 	// 6 R0 whose last member carries no public key (optional on the wire)
-	w.rosters = []*onet.Roster{r0, r1, rev(r0), r0short, {}, r1as0, r0nokey}
+	// 7 R0's servers reversed in a roster WITHOUT id
+	r0noid := rev(r0)
+	r0noid.ID = onet.RosterID(uuid.Nil)
+	w.rosters = []*onet.Roster{r0, r1, rev(r0), r0short, {}, r1as0, r0nokey, r0noid}
 	d0 := func() *onet.TreeMarshal { return t0.MakeTreeMarshal() }
 	empty := d0()
 	empty.Children = nil
@@ -838,6 +841,8 @@ func scenarios() []scen {
 		{"roster-same-id", []hop{h("lmsg", 0, 1), h("presp", 0, 3), h("presp", 0, 5), h("presp", 0, 2)}},
 		// requested id, right roster id, but a member that the tree uses comes without public key
 		{"roster-keyless", []hop{h("lmsg", 0, 1), h("presp", 0, 6), h("ptm", 0), h("pros", 6), h("presp", 0, 0)}},
+		// requested id, the description's servers in a roster that carries no id
+		{"roster-without-id", []hop{h("lmsg", 0, 1), h("presp", 0, 7), h("ptm", 0), h("pros", 7), h("preqtree", 0, 1), h("presp", 0, 0)}},
 		// malformed descriptions for a requested id
 		{"malformed-unknown-member", []hop{h("lmsg", 0, 1), h("presp", 5, 0), h("presp", 7, 0), h("presp", 9, 0), h("presp", 8, 0)}},
 		{"malformed-empty", []hop{h("lmsg", 0, 1), h("presp", 4, 0)}},
@@ -894,7 +899,7 @@ func randomHist(rng *rand.Rand, n int) []hop {
 		case k < 48:
 			ops = append(ops, h("preqtree", t, rng.Intn(2)))
 		case k < 70:
-			d, r := rng.Intn(10), rng.Intn(8)-1
+			d, r := rng.Intn(10), rng.Intn(9)-1
 			if rng.Intn(3) > 0 { // mostly a fitting pair
 				d = []int{0, 1, 2, 3}[rng.Intn(4)]
 				r = []int{0, 0, 1, 0}[d]
@@ -906,7 +911,7 @@ func randomHist(rng *rand.Rand, n int) []hop {
 		case k < 82:
 			ops = append(ops, h("ptm", rng.Intn(10)))
 		case k < 94:
-			ops = append(ops, h("pros", rng.Intn(7)))
+			ops = append(ops, h("pros", rng.Intn(8)))
 		default:
 			ops = append(ops, h("preqros", rng.Intn(2)))
 		}
